@@ -1,4 +1,5 @@
 import Octo.Lemmas.CsvOutput
+import Octo.Lemmas.JsonFraming
 /-!
 # C25 — CSV and JSON output faithfully encode results
 
@@ -24,7 +25,7 @@ open Octo Octo.OutFmt Octo.Spec
 /-- what is assumed of Go's `strconv` (trusted, sampled on every run) -/
 structure LibOK (L : Lib) : Prop where
   floatSyntax : FloatSyntax L
-  floatExact : FloatExact L
+  textExact : TextExact L
   csvFloat : CsvFloatOK L
 
 /-! ## JSON -/
@@ -63,23 +64,53 @@ theorem json_roundtrip (L : Lib) (hL : FloatSyntax L) (τ : Ty) (v : Value) (h :
 /-- … and that document *is* the value: NULL ↦ null, the int literal denotes the int, the float literal rounds
     to the float, strings equal byte for byte, lists / objects / tuples element by element, objects carry the
     field names of the type -/
-theorem json_value_matches (L : Lib) (hE : FloatExact L) (τ : Ty) (v : Value) (h : fits τ v = true) :
-    matchesV L τ v (erase L τ v) = true :=
+theorem json_value_matches (L : Lib) (hE : TextExact L) (τ : Ty) (v : Value) (h : fits τ v = true) :
+    matchesV τ v (erase L τ v) = true :=
   erase_matches L hE v τ h
 
 /-- **one `-o json` line** (`JSONFormatter.Write`): no panic, valid JSON, decodes to the row -/
 theorem json_line (L : Lib) (hL : LibOK L) (ns : List Name) (ts : List Ty) (xs : List Value)
     (h : rowFits ns ts xs = true) :
-    ∃ bs j, jsonLine L ns ts xs = some bs ∧ Json.decode bs = some j ∧ rowMatches L ns ts xs j = true := by
+    ∃ bs j, jsonLine L ns ts xs = some bs ∧ Json.decode bs = some j ∧ rowMatches ns ts xs j = true := by
   obtain ⟨bs, hb, hd⟩ := jsonLine_decode L hL.floatSyntax ns ts xs h
   refine ⟨bs, _, hb, hd, ?_⟩
   simp only [rowFits, Bool.and_eq_true, decide_eq_true_eq] at h
-  simp [rowMatches, eraseEach_matches L hL.floatExact xs ts h.2]
+  simp [rowMatches, eraseEach_matches L hL.textExact xs ts h.2]
 
-/-- every line of a result: `linesOk rows lines` = there is one line per row and line i is row i -/
+/-- **a line is UTF-8** (RFC 8259 §8.1) when the strings of the row, the column / field names and the library's
+    texts are: `appendJSONString` copies bytes ≥ 0x80 unchanged and adds ASCII only.  (A string that is not
+    well-formed UTF-8 cannot be carried by a JSON text at all; its bytes are then copied through, and
+    `json_string_roundtrip` still returns them byte for byte.) -/
+theorem json_line_utf8 (L : Lib) (hL : LibOK L) (ns : List Name) (ts : List Ty) (xs : List Value) (bs : List Nat)
+    (hfit : rowFits ns ts xs = true)
+    (hn : ns.all (fun n => Utf8.valid (nameBytes n)) = true) (ht : utf8Tys ts = true) (hv : utf8Values L xs = true)
+    (h : jsonLine L ns ts xs = some bs) : Json.validText bs = true := by
+  have hu := jsonLine_utf8 L ns ts xs bs hfit hn ht hv h
+  obtain ⟨bs', hb, hd⟩ := jsonLine_decode L hL.floatSyntax ns ts xs hfit
+  rw [h] at hb; cases hb
+  simp [Json.validText, hu, hd]
+
+/-- **framing**: a line is text without any byte below 0x20 followed by exactly one line feed — whatever bytes
+    the strings contain.  So a result's output is cut into its lines at the line feeds, and no line carries a
+    raw control character (RFC 8259 §7). -/
+theorem json_line_framing (L : Lib) (hL : LibOK L) (ns : List Name) (ts : List Ty) (xs : List Value) (bs : List Nat)
+    (hfit : rowFits ns ts xs = true) (h : jsonLine L ns ts xs = some bs) :
+    ∃ b, bs = b ++ [10] ∧ ∀ x ∈ b, 32 ≤ x :=
+  jsonLine_framing L hL.floatSyntax ns ts xs bs hfit h
+
+/-- what C25 demands of one output line `l` for the row `r` -/
+def lineOk (L : Lib) (ns : List Name) (ts : List Ty) (r : List Value) (l : List Nat) : Prop :=
+  -- it parses (RFC 8259) and the document is the row
+  (∃ j, Json.decode l = some j ∧ rowMatches ns ts r j = true) ∧
+  -- it is one line: text without control characters, then a line feed
+  (∃ b, l = b ++ [10] ∧ ∀ x ∈ b, 32 ≤ x) ∧
+  -- it is UTF-8 if the data is
+  (ns.all (fun n => Utf8.valid (nameBytes n)) = true → utf8Tys ts = true → utf8Values L r = true → Utf8.valid l = true)
+
+/-- every line of a result: there is one line per row and line i is row i -/
 def linesOk (L : Lib) (ns : List Name) (ts : List Ty) : List (List Value) → List (List Nat) → Prop
   | [], [] => True
-  | r :: rs, l :: ls => (∃ j, Json.decode l = some j ∧ rowMatches L ns ts r j = true) ∧ linesOk L ns ts rs ls
+  | r :: rs, l :: ls => lineOk L ns ts r l ∧ linesOk L ns ts rs ls
   | _, _ => False
 
 def concat : List (List Nat) → List Nat
@@ -95,9 +126,11 @@ theorem json_output (L : Lib) (hL : LibOK L) (ns : List Name) (ts : List Ty) :
     simp only [List.all_cons, Bool.and_eq_true] at h
     obtain ⟨bs, j, hb, hd, hm⟩ := json_line L hL (withoutQualifiers ns) ts r h.1
     obtain ⟨ls, hls, hok⟩ := json_output L hL ns ts rs h.2
-    refine ⟨bs :: ls, ?_, ⟨j, hd, hm⟩, hok⟩
-    simp only [jsonOutput] at hls ⊢
-    simp [jsonLines, hb, hls, concat]
+    refine ⟨bs :: ls, ?_, ⟨⟨j, hd, hm⟩, json_line_framing L hL _ ts r bs h.1 hb, ?_⟩, hok⟩
+    · simp only [jsonOutput] at hls ⊢
+      simp [jsonLines, hb, hls, concat]
+    · intro hn ht hv
+      exact jsonLine_utf8 L _ ts r bs h.1 hn ht hv hb
 
 /-! ## CSV -/
 
@@ -116,8 +149,8 @@ theorem csv_roundtrip (recs : List (List (List Nat))) (h : ∀ r ∈ recs, r ≠
     int, the float text reads back as the float, strings are the bytes themselves; a list / struct / tuple cell
     does not panic -/
 theorem csv_value (L : Lib) (hL : LibOK L) (τ : Ty) (v : Value) (h : fits τ v = true) :
-    ∃ cell, csvCell L τ v = some cell ∧ csvCellOk L v cell = true :=
-  csvCell_ok L hL.floatSyntax hL.csvFloat τ v h
+    ∃ cell, csvCell L τ v = some cell ∧ csvCellOk v cell = true :=
+  csvCell_ok L hL.floatSyntax hL.csvFloat hL.textExact τ v h
 
 theorem csv_null_is_empty (L : Lib) (τ : Ty) : csvCell L τ .null = some [] := rfl
 
@@ -126,8 +159,8 @@ theorem csv_output (L : Lib) (hL : LibOK L) (ns : List Name) (ts : List Ty) (row
     (hns : ns ≠ []) (hlen : ns.length = ts.length)
     (hrows : rows.all (rowFits (withoutQualifiers ns) ts) = true) :
     ∃ bytes cellss, csvOutput L ns ts rows = some bytes ∧
-      Csv.decode bytes = some ((withoutQualifiers ns).map nameBytes :: cellss) ∧ csvRowsOk L rows cellss = true :=
-  csvOutput_ok L hL.floatSyntax hL.csvFloat ns ts rows hns hlen hrows
+      Csv.decode bytes = some ((withoutQualifiers ns).map nameBytes :: cellss) ∧ csvRowsOk rows cellss = true :=
+  csvOutput_ok L hL.floatSyntax hL.csvFloat hL.textExact ns ts rows hns hlen hrows
 
 /-! ## The property, full strength -/
 
@@ -139,7 +172,7 @@ def Statement
       (∃ lines, jsonOut L ns ts rows = some (concat lines) ∧ linesOk L (withoutQualifiers ns) ts rows lines) ∧
       (ns ≠ [] → ns.length = ts.length →
         ∃ bytes cellss, csvOut L ns ts rows = some bytes ∧
-          Csv.decode bytes = some ((withoutQualifiers ns).map nameBytes :: cellss) ∧ csvRowsOk L rows cellss = true)
+          Csv.decode bytes = some ((withoutQualifiers ns).map nameBytes :: cellss) ∧ csvRowsOk rows cellss = true)
 
 /-- **C25, full strength, on the current tree** (after the three `fix:` commits). -/
 theorem C25_full : Statement jsonOutput csvOutput := by
@@ -193,7 +226,7 @@ example : jsonLine L0 nmRow tyRow valRow =
           34, 108, 34, 58, 91, 123, 34, 97, 34, 58, 49, 46, 53, 125, 44, 123, 34, 97, 34, 58, 110, 117, 108, 108, 125, 93, 44,
           34, 116, 34, 58, 91, 116, 114, 117, 101, 44, 34, 49, 115, 34, 93, 125, 10] := by decide
 /-- … which decodes to a document that is the row -/
-example : ((jsonLine L0 nmRow tyRow valRow).bind Json.decode).map (rowMatches L0 nmRow tyRow valRow) = some true := by
+example : ((jsonLine L0 nmRow tyRow valRow).bind Json.decode).map (rowMatches nmRow tyRow valRow) = some true := by
   decide
 /-- an ill-typed row panics in the model as in the code (a list value under a non-list type) -/
 example : jsonLine L0 [[97]] [.int] [.list [.int 1]] = none := by decide
